@@ -496,7 +496,13 @@ func (e *Engine) doCall(st *State, fr *Frame, instr *ssa.Call, c *ssa.CallCommon
 		if recv.typ == nil {
 			panic(goPanic{site: "nil pointer dereference (method call on nil interface " + c.Method.Name() + ")"})
 		}
-		if r, ok := e.invokeSpecial(st, recv, c.Method.Name()); ok {
+		var iargs []Value
+		if recv.typ == shaHasherT || recv.typ == ctxTokT || recv.typ == e.opaqueErrT {
+			for _, a := range c.Args {
+				iargs = append(iargs, e.get(st, fr, a))
+			}
+		}
+		if r, ok := e.invokeSpecial(st, recv, c.Method.Name(), iargs); ok {
 			if instr != nil {
 				e.set(fr, instr, r)
 			}
